@@ -265,3 +265,24 @@ def tlc_generate(module, cfg, tag, timeout=3000):
         os.replace(tmp, outp)
         log("[GEN] %s/%s %.0fs" % (module, cfg, time.time() - t0))
     return read_ndjson(outp)
+
+
+def apalache_inductive(module_path, cinit="ConstInit", init="Init", ind_init="IndInit", inv="IndInv", timeout=1200):
+    """Discharges an inductive invariant with Apalache: Init => Inv (length 0) and Inv /\ Next => Inv' (length 1 from an
+    arbitrary state satisfying Inv). Returns an L1-style result record."""
+    outd = os.path.join(OUT, "apalache_%d" % os.getpid())
+    t0 = time.time()
+    ok = True
+    log_all = ""
+    for args in (["--init=" + init, "--length=0"], ["--init=" + ind_init, "--length=1"]):
+        cmd = ["apalache-mc", "check", "--out-dir=" + outd, "--cinit=" + cinit, "--inv=" + inv] + args + [os.path.basename(module_path)]
+        try:
+            p = subprocess.run(cmd, cwd=os.path.dirname(module_path), stdout=subprocess.PIPE, stderr=subprocess.STDOUT, text=True, timeout=timeout)
+        except subprocess.TimeoutExpired:
+            raise ToolError("apalache timed out on %s" % module_path)
+        log_all += p.stdout[-1500:]
+        if "EXITCODE: OK" not in p.stdout:
+            ok = False
+    shutil.rmtree(outd, ignore_errors=True)
+    return {"module": os.path.basename(module_path), "cfg": "apalache inductive (Init => Inv; Inv /\\ Next => Inv')", "ok": ok, "violated": not ok,
+            "states": 2, "transitions": 2, "wall_s": time.time() - t0, "cached": False, "out": log_all}
